@@ -1,0 +1,20 @@
+//go:build !verif
+
+// Package verifhook holds instrumentation points used by the external verification harness.
+// Without the "verif" build tag every function is an empty, inlinable no-op.
+package verifhook
+
+// Enabled reports whether the hooks are compiled in.
+const Enabled = false
+
+// Point marks a named fault-injection point (no-op).
+func Point(name string) {}
+
+// Yield marks a named scheduling point (no-op).
+func Yield(name string) {}
+
+// AsyncBegin marks the start of a fire-and-forget goroutine (no-op).
+func AsyncBegin() {}
+
+// AsyncEnd marks the end of a fire-and-forget goroutine (no-op).
+func AsyncEnd() {}
